@@ -2,6 +2,7 @@
 import json
 
 import common as C
+import retry_typed_gen as TG
 import srctie
 from cli_args import cli_argv
 from props import C09 as L9
@@ -36,10 +37,19 @@ META = dict(
          "that must not change any observation: propagate_exceptions, validate_params, ack type, ackable or bytes message, "
          "max_async_tasks / prefetch / max tasks / wait timeout, options given on the worker command line, delivery through a whole "
          "listen() session, a new Receiver per delivery, sync / async task function, generator dependencies, a failing dependency, "
-         "failure by timeout label or by a falsy exception object, other middlewares around the retry middleware, a subclass of it",
+         "failure by timeout label or by a falsy exception object, other middlewares around the retry middleware, a subclass of it. "
+         "About a tenth of the cases have typed arguments: the task function's parameters are annotated with pydantic models "
+         "(constant defaults, default_factory defaults that yield a fresh value per construction, Optional / nested / aliased / "
+         "extra fields, non-JSON field types), dataclasses, containers of them, plain types or nothing; the caller passes instances "
+         "with fields left unset, dicts, lists, primitives - positionally, by keyword, omitted, through *rest / **extra - and the "
+         "function records the canonical form of what it received on every attempt (oracle: every attempt receives what the "
+         "first one received, and the first one what was sent)",
     trusted_base=["model: coq/theories/Retry.v + Labels.v + Base64.v (hand-written transcription of retry_middleware.on_error, the "
                   "NoResultError test in Receiver.callback, kicker re-send)",
                   "CPython str(float)/float(str) round trip (Section hypothesis float_roundtrip)",
+                  "harness/retry_typed.py + retry_typed_gen.py: the user types (pydantic models, dataclasses), the generated task "
+                  "function with annotated parameters, the canonical form of received arguments; pydantic's own model_dump(mode='json') "
+                  "/ dataclasses.asdict as the documented wire form of a model / dataclass argument",
                   "harness/drivers/retry_driver.py + labels_driver.py: recording broker / middleware / result backend; the env "
                   "building blocks of retry_driver.py (task function shapes, bystander middlewares, listen-session wrapper) and "
                   "harness/cli_glue.py (real WorkerArgs.from_cli + start_listen with its imports replaced)"],
@@ -194,6 +204,45 @@ def gen_env_case(r):
     return with_env(c, gen_env(r))
 
 
+def gen_typed_case(r):
+    """a retry situation whose task has annotated parameters and structured arguments (harness/retry_typed.py); the worker
+    configuration varies with it in about a third of the cases"""
+    c = gen_case(r)
+    if r.random() < .65:
+        c["labels"] = [kv for kv in c["labels"] if kstr(kv[0]) not in ("retry_on_error", "_retries")]
+        c["mw"]["label"] = True
+        if len(c["outs"]) == 1 and r.random() < .7:
+            c["outs"] = ["F"] * r.choice([1, 2, 3]) + c["outs"]
+    k = r.random()
+    env = gen_env(r) if k < .35 else {"validate": False} if k < .45 else {}
+    if env.get("fn") == "dep_fails":
+        env["fn"] = "gen_dep"
+    if c["ser"] == "json" and r.random() < .15:
+        # taskiq's JSONFormatter (pydantic-core's JSON writer) refuses lone surrogates, which json.dumps escapes: label texts
+        # with lone surrogates are C09's subject (ProxyFormatter), not this dimension's
+        env["fmt"] = "json"
+        surr = lambda cps: any(0xD800 <= x <= 0xDFFF for x in cps)                                   # noqa: E731
+        c["labels"] = [kv for kv in c["labels"] if not surr(kv[0]) and not (kv[1]["t"] == "str" and surr(kv[1]["v"]))]
+    c = with_env(c, env)
+    c.update(args=[], kwargs={}, typed=TG.gen_typed(r))
+    return c
+
+
+def typed_grid():
+    """retry_typed_gen.typed_grid() on the fail-fail-success situation (validating worker; the first few also not validating)"""
+    base = dict(ser="json", mw=dict(count=2, label=False, nror=True), outs=["F", "F", "S"], args=[], kwargs={}, guard=30,
+                labels=[[K("max_retries"), {"t": "int", "v": "3"}], [K("retry_on_error"), {"t": "bool", "v": True}],
+                        [K("tenant"), {"t": "str", "v": K("acme")}]])
+    out = []
+    for i, t in enumerate(TG.typed_grid()):
+        out.append(dict(base, typed=t, env={}, ser="pickle" if i % 5 == 4 else "json"))
+        if i % 3 == 0:
+            out.append(dict(base, typed=t, env={"validate": False}))
+        if i % 7 == 0:
+            out.append(dict(base, typed=t, env={"fmt": "json", "fn": "sync"}))
+    return out
+
+
 def env_grid():
     """every single deviation from the default worker configuration, each on two of four retry situations - always run"""
     def mk(outs, labels, count, label, nror):
@@ -224,8 +273,49 @@ def env_grid():
     return [with_env(b, dict(e)) for i, e in enumerate(envs) for b in (bases[0], bases[1 + i % 3])]
 
 
+def count_typed(rep, c, o):
+    t = c.get("typed")
+    if t is None:
+        rep.count("typed:none (opaque JSON arguments, untyped *args / **kwargs function)")
+        return
+    env = c.get("env") or {}
+    rep.count("typed:cases")
+    rep.count("typed:validate_params=%s" % env.get("validate", True))
+    rep.count("typed:formatter=" + env.get("fmt", "proxy") + "/" + c["ser"])
+    rep.count("typed:parameters=%d" % len(t["params"]))
+    if t.get("str_ann"):
+        rep.count("typed:annotations-as-strings")
+    if t.get("rest") is not None:
+        rep.count("typed:*rest-with-%d-extra-positional" % len(t["rest"]))
+    if t.get("extra") is not None:
+        rep.count("typed:**extra-with-%d-extra-keywords" % len(t["extra"]))
+    resend = len(o.get("execs", [])) > 1
+    if resend:
+        rep.count("typed:cases-with-a-re-send")
+    unset = False
+    for p in t["params"]:
+        rep.count("typed:annotation=" + p["ann"])
+        rep.count("typed:passed=" + p["how"])
+        v = p["val"] or {}
+        rep.count("typed:value=" + ("default of the function" if p["how"] == "omit" else
+                                    v["b"] + (":" + v["cls"] if "cls" in v else ":" + v["t"] if v["b"] == "py" else "")))
+        if v.get("assign"):
+            rep.count("typed:instance-field-assigned-after-construction")
+        if p["how"] != "omit" and p.get("expect") is None:
+            rep.count("typed:parameter-without-claim-about-first-attempt")
+        if v.get("b") in ("inst", "validated") and p["ann"] == v.get("cls"):
+            uf = TG.unset_factory_fields(v)
+            for f in uf:
+                rep.count("typed:unset-default_factory-field=" + f)
+            unset = unset or bool(uf)
+    if unset and resend and env.get("validate", True):
+        rep.count("typed:re-sent-with-a-top-level-instance-leaving-a-fresh-value-factory-field-unset (validating worker)")
+
+
 def count_env(rep, c, o):
     env = c.get("env")
+    if c.get("typed") is not None and not env:
+        return
     if env is None:
         rep.count("env:none (default worker: Receiver.callback, propagate on, bytes message)")
         return
@@ -242,6 +332,7 @@ def count_env(rep, c, o):
     rep.count("env:timeout-label=%s" % (lab(c, "timeout") is not None))
     rep.count("env:receiver-object=" + ("new per delivery" if env.get("fresh") or env.get("via") == "listen" else "reused"))
     rep.count("env:retry-middleware-class=" + env.get("retry_cls", "base"))
+    rep.count("env:formatter=" + env.get("fmt", "proxy"))
     for pos in ("mw_before", "mw_mid", "mw_after"):
         for k in env.get(pos, []):
             rep.count("env:other-middleware:%s:%s" % (pos[3:], k))
@@ -303,6 +394,19 @@ def in_domain(case):
     return enabled, m
 
 
+def want_args(case, obs, i):
+    """the arguments execution i must have run with.  Opaque arguments: what was sent.  Typed arguments (canonical form of
+    what the function received): execution 0 = the claim about the first attempt where there is one (the value sent, after
+    the documented conversion), every later execution = what execution 0 received."""
+    if case.get("typed") is None:
+        return [case["args"], case["kwargs"]]
+    first = obs["execs"][0]["args"]
+    if i > 0 or not (isinstance(first, list) and len(first) == 2 and isinstance(first[1], dict)):
+        return first
+    claim = obs.get("typed_expect") or {}
+    return [[], {**first[1], **claim}]
+
+
 def oracle(case, obs, fail):
     dom = in_domain(case)
     ex = obs["execs"]
@@ -313,9 +417,11 @@ def oracle(case, obs, fail):
     want = L9.canon_map({k: v for k, v in sent.items() if not L9.is_other(v)}, drop=("_retries",))
     others = {k for k, v in sent.items() if L9.is_other(v)}
     for i, e in enumerate(ex):
-        if e["task_id"] != obs["sent_id"] or e["args"] != [case["args"], case["kwargs"]]:
-            fail("execution %d ran with another task id / arguments" % i, dict(id=e["task_id"], args=e["args"]),
-                 dict(id=obs["sent_id"], args=[case["args"], case["kwargs"]]))
+        want_a = want_args(case, obs, i)
+        if e["task_id"] != obs["sent_id"] or e["args"] != want_a:
+            fail("execution %d ran with another task id / arguments%s" % (
+                i, "" if case.get("typed") is None else " than the first execution" if i else " than the ones sent"),
+                dict(id=e["task_id"], args=e["args"]), dict(id=obs["sent_id"], args=want_a))
         got = L9.canon_map({k: v for k, v in L9.as_map(e["labels"]).items() if k not in others}, drop=("_retries",))
         if got != want:
             fail("execution %d saw other user labels than the ones sent" % i, sorted(got.items()), sorted(want.items()))
@@ -374,12 +480,13 @@ def case_literal(case, obs):
     lit = Lit(case, obs)
     d = lit.ldict(case["labels"])
     execs = []
-    for e in obs["execs"]:
+    for i, e in enumerate(obs["execs"]):
         if e["out"] not in OUT:
             return None
         execs.append("(mkExec %s %s %s %s %s %s %s)" % (
             "0%N" if e["task_id"] == obs["sent_id"] == "c0" else "1%N",
-            "8%N" if e["args"] == [case["args"], case["kwargs"]] else "9%N",
+            # the model's opaque argument identifier: 8 = the arguments this execution must have run with (want_args)
+            "8%N" if e["args"] == want_args(case, obs, i) else "9%N",
             lit.ldict(e["labels"]), OUT[e["out"]],
             "(Some %s)" % C.cb(e["is_err"]) if e["stored"] else "None",
             C.cb(e["resent"] >= 1), C.cb(bool(e["raised"]))))
@@ -445,6 +552,7 @@ def explore(ctx, rep, cases, label, shard=150):
         rep.count("oracle-domain:%s" % (in_domain(c) is not None))
         rep.count("executions:%d" % len(o["execs"]))
         count_env(rep, c, o)
+        count_typed(rep, c, o)
         ex = o["execs"]
         if ex:
             last = ex[-1]
@@ -503,9 +611,12 @@ def run(ctx):
     broken = explore(ctx, rep, [gen_case(r) for _ in range(ctx.n(1500, 40000))], "main") or broken
     re_ = ctx.sub_rng("env")
     broken = explore(ctx, rep, env_grid() + [gen_env_case(re_) for _ in range(ctx.n(400, 12000))], "env") or broken
+    rt = ctx.sub_rng("typed")
+    broken = explore(ctx, rep, typed_grid() + [gen_typed_case(rt) for _ in range(ctx.n(300, 9000))], "typed") or broken
     if (broken or any(not o["ok"] for o in rep.obligations)) and not rep.failures:
         r2 = ctx.sub_rng("search")
-        explore(ctx, rep, [gen_env_case(r2) if i % 4 == 3 else gen_case(r2) for i in range(ctx.n(6000, 60000))], "search")
+        explore(ctx, rep, [gen_env_case(r2) if i % 4 == 3 else gen_typed_case(r2) if i % 4 == 1 else gen_case(r2)
+                           for i in range(ctx.n(6000, 60000))], "search")
     return rep.finish({})
 
 
@@ -517,10 +628,15 @@ def replay(ctx, path):
     if "_crash" in o:
         print("driver crashed:", o["_crash"])
         return 1
+    if c.get("typed") is not None:
+        print("task function (typed arguments, harness/retry_typed.py):\n  " + (o.get("typed_src") or "").replace("\n", "\n  ").rstrip())
+        print("claim about the first attempt's arguments:", json.dumps(o.get("typed_expect"), sort_keys=True)[:1500])
     for i, e in enumerate(o["execs"]):
         print(" execution %d: out=%s id=%s stored=%s is_err=%s resent=%s raised=%s _retries=%s" % (
             i, e["out"], e["task_id"], e["stored"], e["is_err"], e["resent"], e["raised"],
             L9.as_map(e["labels"]).get("_retries")))
+        if c.get("typed") is not None:
+            print("   received arguments:", json.dumps(e["args"][1] if e["args"] else e["args"], sort_keys=True)[:1500])
     print("statement domain (enabled, max_retries):", in_domain(c))
     if c.get("env") is not None:
         print("worker configuration (env):", json.dumps(c["env"]), "| Receiver kwargs from the command line:", o.get("cli_kw"),
